@@ -210,3 +210,108 @@ func c02KindIndependence(ctx *core.Ctx, cc *CC) {
 		}
 	}
 }
+
+// c02HelperNames — C02.R10: every runtime helper name the Go generator can
+// compose as frugal.Write<X>WithContext exists in package frugal. X is a
+// constant assigned in the composing function or snakeToCamel(base type name)
+// for every base type that no case label / equality test of the function
+// overrides.
+func c02HelperNames(ctx *core.Ctx, cc *CC, base []string, runtimeHas func(string) bool) {
+	ctx.Rule("C02.R10", "composed helper names exist: every frugal.Write<X>WithContext the Go generator can emit is a function of the runtime, for every base type", 9)
+	gp := cc.Pkg("generator/golang")
+	n := 0
+	for _, fn := range cc.Fns {
+		if fn.Pkg != gp {
+			continue
+		}
+		for _, c := range ssax.Calls(fn) {
+			if c.FullName() != "fmt.Sprintf" {
+				continue
+			}
+			f, isK := ConstString(c.Args()[0])
+			if !isK || !strings.Contains(f, "frugal.Write%sWithContext") {
+				continue
+			}
+			va := VarargValues(c.Args()[1])
+			if len(va) == 0 {
+				continue
+			}
+			name := va[0]
+			if mi, ok := name.(*ssa.MakeInterface); ok {
+				name = mi.X
+			}
+			// constants and the dynamic camel-cased type name reaching the operand
+			consts := map[string]bool{}
+			dynamic := false
+			seen := map[ssa.Value]bool{}
+			var walk func(v ssa.Value)
+			walk = func(v ssa.Value) {
+				if seen[v] {
+					return
+				}
+				seen[v] = true
+				switch x := v.(type) {
+				case *ssa.Phi:
+					for _, e := range x.Edges {
+						walk(e)
+					}
+				case *ssa.Const:
+					if s, ok := ConstString(x); ok {
+						consts[s] = true
+					}
+				case *ssa.Call:
+					if cc2, ok := ssax.AsCall(x); ok && cc2.Static != nil && cc2.Static.Name() == "snakeToCamel" {
+						dynamic = true
+					}
+				}
+			}
+			walk(name)
+			// labels compared with a parser.Type.Name in this function
+			labels := map[string]bool{}
+			ssax.Instrs(fn, func(in ssa.Instruction) {
+				bo, ok := in.(*ssa.BinOp)
+				if !ok || bo.Op != token.EQL {
+					return
+				}
+				for _, pair := range [][2]ssa.Value{{bo.X, bo.Y}, {bo.Y, bo.X}} {
+					if s, isS := ConstString(pair[1]); isS {
+						if u, isU := ssax.Strip(pair[0]).(*ssa.UnOp); isU {
+							if fa, isFA := u.X.(*ssa.FieldAddr); isFA && fieldName(fa) == "Name" && ssax.TypeNamed(fa.X.Type(), "", "Type") {
+								labels[s] = true
+							}
+						}
+					}
+				}
+			})
+			camel := func(s string) string {
+				out := ""
+				for _, w := range strings.Split(s, "_") {
+					if w != "" {
+						out += strings.ToUpper(w[:1]) + w[1:]
+					}
+				}
+				return out
+			}
+			var xs []string
+			for s := range consts {
+				xs = append(xs, s)
+			}
+			if dynamic {
+				for _, b := range base {
+					if !labels[b] {
+						xs = append(xs, camel(b))
+					}
+				}
+			}
+			sort.Strings(xs)
+			for _, x := range xs {
+				n++
+				ctx.Check(runtimeHas("Write"+x+"WithContext"), "C02.R10", QName(fn)+" › frugal.Write"+x+"WithContext exists", cc.IPos(c.Instr), "declared in lib/go",
+					"the generator can emit a call of frugal.Write"+x+"WithContext, which the runtime does not declare: the generated code for a field of that type does not compile (e.g. i8 with the slim option)")
+			}
+		}
+	}
+	if n == 0 {
+		ctx.Unresolved("C02.R10", "golang generator", "no composed frugal.Write%sWithContext call found")
+	}
+}
